@@ -80,155 +80,158 @@ def rule_sort_key(rep):
         "candidate order = priority (desc), string/keyword before regex, longer text first, "
         "unique name last; sorted descending",
     ) as r:
-        repo = rep.repo
-        f = repo.func("parglare.tables.LRTable.sort_state_actions")
-        sorts = [c for c in walk_no_nested(f.node) if isinstance(c, ast.Call) and is_name(c.func, "sorted")]
-        r.need(len(sorts) == 1, "expected one sorted(...) call in sort_state_actions")
-        s = sorts[0]
-        key = next((k.value for k in s.keywords if k.arg == "key"), None)
-        rev = next((k.value for k in s.keywords if k.arg == "reverse"), None)
-        r.need(isinstance(key, ast.Name), "sorted(key=...) is not a local function")
-        kf = repo.func(f"parglare.tables.LRTable.sort_state_actions.{key.id}")
-        r.check(
-            "actions.items()" in unparse(s.args[0]),
-            "sort ranges over the whole action dict of the state",
-            "sort_state_actions:domain",
-            f"sorted() ranges over {unparse(s.args[0])}",
-            node=s,
-        )
-        descending = isinstance(rev, ast.Constant) and rev.value is True
-        # key function: locals -> env
-        env = {}
-        sym = None
-        ret = None
-        for st in kf.body:
-            if isinstance(st, ast.Expr) and isinstance(st.value, ast.Constant):
-                continue
-            if isinstance(st, ast.Assign) and isinstance(st.targets[0], ast.Tuple) and is_name(st.value, kf.params[0]):
-                sym = st.targets[0].elts[0].id
-            elif isinstance(st, ast.Assign) and isinstance(st.targets[0], ast.Name):
-                env[st.targets[0].id] = st.value
-            elif isinstance(st, ast.Return):
-                ret = st.value
-            else:
-                raise AnalysisError(f"act_order: unsupported statement {unparse(st)[:60]}")
-        r.need(sym is not None and ret is not None, "act_order: (symbol, action) unpacking / return not found")
-        while isinstance(ret, ast.Name) and ret.id in env:
-            ret = env[ret.id]
+        rule_sort_key_checks(r, rep.repo)
 
-        def canon(t):
-            return re.sub(rf"\b{re.escape(sym)}\b", "S", t) if t else t
 
-        # two accepted shapes: formatted fixed-width string, or a tuple
-        comps = None
-        if (
-            isinstance(ret, ast.Call)
-            and isinstance(ret.func, ast.Attribute)
-            and ret.func.attr == "format"
-            and isinstance(ret.func.value, ast.Constant)
-        ):
-            fmt = ret.func.value.value
-            m = re.fullmatch(r"\{:0(\d+)d\}\{(?::(\d*)s)?\}", fmt)
-            r.need(m is not None and len(ret.args) == 2, f"act_order: unknown key format {fmt!r}")
-            width = int(m.group(1))
-            lin = _linear(ret.args[0], env)
-            name_expr = unparse(ret.args[1])
-            r.fact("key_format", fmt)
-            # linear form: K*prior + c + len terms
-            K = sum(c for c, t in lin if t == ("prior",))
-            c0 = sum(c for c, t in lin if t == ("const",))
-            lens = [(c, t) for c, t in lin if t[0] == "len"]
-            other = [(c, t) for c, t in lin if t[0] not in ("prior", "const", "len")]
-            r.need(not other, f"act_order: unsupported key terms {other}")
-            r.fact("linear_form", f"{K}*prior + {c0} + " + " + ".join(f"{c}*len({t[2]})[{t[1]}]" for c, t in lens))
-            r.check(
-                K > 0 and c0 >= 0 and K > c0,
-                "priority dominates (coefficient > offset; terminals shorter than K - offset)",
-                "act_order:priority-weight",
-                f"priority weight {K} does not dominate the specificity offset {c0}",
-                node=ret,
-            )
-            r.check(
-                width >= len(str(K * 10**5)),
-                "fixed-width zero padded number => string order == numeric order",
-                "act_order:width",
-                f"key number is rendered with width {width}, too narrow for priority*{K}",
-                node=ret,
-            )
-            comps = ("linear", lens)
-        elif isinstance(ret, ast.Tuple) and len(ret.elts) >= 3:
-            r.need(unparse(ret.elts[0]) == f"{sym}.prior", "tuple key must start with the priority")
-            lens = []
-            for el in ret.elts[1:-1]:
-                try:
-                    lens += [(c, t) for c, t in _linear(el, env) if t[0] == "len"]
-                except AnalysisError:
-                    pass
-            name_expr = unparse(ret.elts[-1])
-            comps = ("tuple", lens)
+def rule_sort_key_checks(r, repo):
+    f = repo.func("parglare.tables.LRTable.sort_state_actions")
+    sorts = [c for c in walk_no_nested(f.node) if isinstance(c, ast.Call) and is_name(c.func, "sorted")]
+    r.need(len(sorts) == 1, "expected one sorted(...) call in sort_state_actions")
+    s = sorts[0]
+    key = next((k.value for k in s.keywords if k.arg == "key"), None)
+    rev = next((k.value for k in s.keywords if k.arg == "reverse"), None)
+    r.need(isinstance(key, ast.Name), "sorted(key=...) is not a local function")
+    kf = repo.func(f"parglare.tables.LRTable.sort_state_actions.{key.id}")
+    r.check(
+        "actions.items()" in unparse(s.args[0]),
+        "sort ranges over the whole action dict of the state",
+        "sort_state_actions:domain",
+        f"sorted() ranges over {unparse(s.args[0])}",
+        node=s,
+    )
+    descending = isinstance(rev, ast.Constant) and rev.value is True
+    # key function: locals -> env
+    env = {}
+    sym = None
+    ret = None
+    for st in kf.body:
+        if isinstance(st, ast.Expr) and isinstance(st.value, ast.Constant):
+            continue
+        if isinstance(st, ast.Assign) and isinstance(st.targets[0], ast.Tuple) and is_name(st.value, kf.params[0]):
+            sym = st.targets[0].elts[0].id
+        elif isinstance(st, ast.Assign) and isinstance(st.targets[0], ast.Name):
+            env[st.targets[0].id] = st.value
+        elif isinstance(st, ast.Return):
+            ret = st.value
         else:
-            raise AnalysisError(f"act_order: unknown key shape {unparse(ret)[:80]}")
+            raise AnalysisError(f"act_order: unsupported statement {unparse(st)[:60]}")
+    r.need(sym is not None and ret is not None, "act_order: (symbol, action) unpacking / return not found")
+    while isinstance(ret, ast.Name) and ret.id in env:
+        ret = env[ret.id]
+
+    def canon(t):
+        return re.sub(rf"\b{re.escape(sym)}\b", "S", t) if t else t
+
+    # two accepted shapes: formatted fixed-width string, or a tuple
+    comps = None
+    if (
+        isinstance(ret, ast.Call)
+        and isinstance(ret.func, ast.Attribute)
+        and ret.func.attr == "format"
+        and isinstance(ret.func.value, ast.Constant)
+    ):
+        fmt = ret.func.value.value
+        m = re.fullmatch(r"\{:0(\d+)d\}\{(?::(\d*)s)?\}", fmt)
+        r.need(m is not None and len(ret.args) == 2, f"act_order: unknown key format {fmt!r}")
+        width = int(m.group(1))
+        lin = _linear(ret.args[0], env)
+        name_expr = unparse(ret.args[1])
+        r.fact("key_format", fmt)
+        # linear form: K*prior + c + len terms
+        K = sum(c for c, t in lin if t == ("prior",))
+        c0 = sum(c for c, t in lin if t == ("const",))
+        lens = [(c, t) for c, t in lin if t[0] == "len"]
+        other = [(c, t) for c, t in lin if t[0] not in ("prior", "const", "len")]
+        r.need(not other, f"act_order: unsupported key terms {other}")
+        r.fact("linear_form", f"{K}*prior + {c0} + " + " + ".join(f"{c}*len({t[2]})[{t[1]}]" for c, t in lens))
         r.check(
-            descending,
-            "sorted descending",
-            "sort_state_actions:reverse",
-            "actions are not sorted in descending key order (reverse=True missing): lowest "
-            "priority / regex recognisers would be tried first",
-            node=s,
-        )
-        r.check(
-            canon(name_expr) == "S.fqn",
-            "key ends in the unique fully qualified name (total order)",
-            "act_order:tiebreak",
-            f"sort key tie-break is {name_expr}, which is not unique across imported grammars "
-            "(only fqn is); ties keep the hash-dependent insertion order",
+            K > 0 and c0 >= 0 and K > c0,
+            "priority dominates (coefficient > offset; terminals shorter than K - offset)",
+            "act_order:priority-weight",
+            f"priority weight {K} does not dominate the specificity offset {c0}",
             node=ret,
         )
-        # length terms
-        have_string = have_kw = False
-        for c, t in comps[1]:
-            guard, arg = canon(t[1]), canon(t[2])
-            if guard in STRING_GUARDS and arg == "S.recognizer.value" and c > 0:
-                have_string = True
-                r.ok("string recognisers ranked by len(text)", node=ret)
-            elif guard in KEYWORD_GUARDS and arg == "S.recognizer.name" and c > 0:
-                have_kw = True
-                r.ok("keyword recognisers ranked by len(keyword text)", node=ret)
-            else:
-                r.violation(
-                    "act_order:length-term",
-                    f"candidate order uses len({arg}) under [{guard}] (weight {c}); only the "
-                    "matched literal text (recognizer.value for strings, recognizer.name = keyword "
-                    "text for keywords) ranks 'longer first' correctly",
-                    node=ret,
-                )
-        r.check(have_string, "string-over-regex / longest string first present", "act_order:string-term",
-                "sort key has no positive length term for string recognisers (strings no longer "
-                "precede regexes)", node=ret)
-        r.check(have_kw, "keywords ranked like strings", "act_order:keyword-term",
-                "sort key has no positive length term for keyword terminals (keywords no longer "
-                "rank as strings)", node=ret)
-        # the keyword text really is the recogniser's name
-        fk = repo.func("parglare.grammar.Grammar._fix_keyword_terminals")
-        cons = [c for c in walk_no_nested(fk.node) if isinstance(c, ast.Call) and call_name(c) == "RegExRecognizer"]
-        r.need(len(cons) == 1, "_fix_keyword_terminals: RegExRecognizer construction not found")
-        nm = next((k.value for k in cons[0].keywords if k.arg == "name"), None)
         r.check(
-            nm is not None and unparse(nm) in ("match", "term.recognizer.value"),
-            "keyword recogniser is named by the keyword text",
-            "_fix_keyword_terminals:name",
-            f"keyword recogniser name is {unparse(nm)}; act_order measures len(recognizer.name)",
-            node=cons[0],
+            width >= len(str(K * 10**5)),
+            "fixed-width zero padded number => string order == numeric order",
+            "act_order:width",
+            f"key number is rendered with width {width}, too narrow for priority*{K}",
+            node=ret,
         )
-        # the sort is applied on the create path
-        init = repo.func("parglare.tables.LRTable.__init__")
-        r.check(
-            any(is_self_attr(c.func, "sort_state_actions") for c in walk_no_nested(init.node) if isinstance(c, ast.Call)),
-            "LRTable.__init__ sorts the actions",
-            "LRTable.__init__:sort",
-            "LRTable.__init__ no longer calls sort_state_actions",
-            node=init.node,
-        )
+        comps = ("linear", lens)
+    elif isinstance(ret, ast.Tuple) and len(ret.elts) >= 3:
+        r.need(unparse(ret.elts[0]) == f"{sym}.prior", "tuple key must start with the priority")
+        lens = []
+        for el in ret.elts[1:-1]:
+            try:
+                lens += [(c, t) for c, t in _linear(el, env) if t[0] == "len"]
+            except AnalysisError:
+                pass
+        name_expr = unparse(ret.elts[-1])
+        comps = ("tuple", lens)
+    else:
+        raise AnalysisError(f"act_order: unknown key shape {unparse(ret)[:80]}")
+    r.check(
+        descending,
+        "sorted descending",
+        "sort_state_actions:reverse",
+        "actions are not sorted in descending key order (reverse=True missing): lowest "
+        "priority / regex recognisers would be tried first",
+        node=s,
+    )
+    r.check(
+        canon(name_expr) == "S.fqn",
+        "key ends in the unique fully qualified name (total order)",
+        "act_order:tiebreak",
+        f"sort key tie-break is {name_expr}, which is not unique across imported grammars "
+        "(only fqn is); ties keep the hash-dependent insertion order",
+        node=ret,
+    )
+    # length terms
+    have_string = have_kw = False
+    for c, t in comps[1]:
+        guard, arg = canon(t[1]), canon(t[2])
+        if guard in STRING_GUARDS and arg == "S.recognizer.value" and c > 0:
+            have_string = True
+            r.ok("string recognisers ranked by len(text)", node=ret)
+        elif guard in KEYWORD_GUARDS and arg == "S.recognizer.name" and c > 0:
+            have_kw = True
+            r.ok("keyword recognisers ranked by len(keyword text)", node=ret)
+        else:
+            r.violation(
+                "act_order:length-term",
+                f"candidate order uses len({arg}) under [{guard}] (weight {c}); only the "
+                "matched literal text (recognizer.value for strings, recognizer.name = keyword "
+                "text for keywords) ranks 'longer first' correctly",
+                node=ret,
+            )
+    r.check(have_string, "string-over-regex / longest string first present", "act_order:string-term",
+            "sort key has no positive length term for string recognisers (strings no longer "
+            "precede regexes)", node=ret)
+    r.check(have_kw, "keywords ranked like strings", "act_order:keyword-term",
+            "sort key has no positive length term for keyword terminals (keywords no longer "
+            "rank as strings)", node=ret)
+    # the keyword text really is the recogniser's name
+    fk = repo.func("parglare.grammar.Grammar._fix_keyword_terminals")
+    cons = [c for c in walk_no_nested(fk.node) if isinstance(c, ast.Call) and call_name(c) == "RegExRecognizer"]
+    r.need(len(cons) == 1, "_fix_keyword_terminals: RegExRecognizer construction not found")
+    nm = next((k.value for k in cons[0].keywords if k.arg == "name"), None)
+    r.check(
+        nm is not None and unparse(nm) in ("match", "term.recognizer.value"),
+        "keyword recogniser is named by the keyword text",
+        "_fix_keyword_terminals:name",
+        f"keyword recogniser name is {unparse(nm)}; act_order measures len(recognizer.name)",
+        node=cons[0],
+    )
+    # the sort is applied on the create path
+    init = repo.func("parglare.tables.LRTable.__init__")
+    r.check(
+        any(is_self_attr(c.func, "sort_state_actions") for c in walk_no_nested(init.node) if isinstance(c, ast.Call)),
+        "LRTable.__init__ sorts the actions",
+        "LRTable.__init__:sort",
+        "LRTable.__init__ no longer calls sort_state_actions",
+        node=init.node,
+    )
 
 
 # ------------------------------------------------------------------ R07.finish
